@@ -151,11 +151,22 @@ func Run(r *ev.Run, scs []Scenario) {
 		}
 		groups[s.Group] = append(groups[s.Group], s)
 	}
+	// VERIF_STOP_ON_VIOLATION=1 (used when trying deliberately broken trees): once a violation has been
+	// recorded the remaining scenarios are skipped; the run then reports exhaustive:false for them.
+	stop := os.Getenv("VERIF_STOP_ON_VIOLATION") == "1"
 	for _, g := range order {
+		if stop && r.Violations() > 0 {
+			r.Note("VERIF_STOP_ON_VIOLATION: group " + g + " skipped after an earlier violation")
+			continue
+		}
 		runGroup(r, g, groups[g])
 	}
 	for _, s := range scs {
 		if !r.Want(s.Name) || s.Group != "" {
+			continue
+		}
+		if stop && r.Violations() > 0 {
+			r.Note("VERIF_STOP_ON_VIOLATION: scenario " + s.Name + " skipped after an earlier violation")
 			continue
 		}
 		runScenario(r, s)
